@@ -51,8 +51,7 @@ def gen_leaf(rng, S, exact):
     n = S.size
     kinds = ['l2sq', 'l2sq', 'l1', 'const', 'lin', 'quadscale', 'quadmul', 'zero']
     if not S.is_pspace:
-        if S.kind != 'rn-array':   # Huber on array-weighted rn raises (known finding), zoo only
-            kinds += ['huber', 'huber']
+        kinds += ['huber', 'huber']
         if S.kind in ('rn', 'rn-const'):
             kinds += ['quadmat', 'quadmat']
     if not exact:
